@@ -40,6 +40,9 @@ RULE = ("crypt_open: handler variants R2 (40 bit), R3 (40..128 step 8), R4 (V2 /
         "non-UTF-8 passwords, two /CF entries of different /Length under every /StmF,/StrF choice); crypt_dec: Decoder::with_methods with arbitrary key/size/methods on valid and malformed ciphertexts; crypt_doc: whole files written "
         "by tools/oracle/pdfwriter.py (tables and xref streams, object streams, direct/indirect /Encrypt, metadata stream with EncryptMetadata on/off, "
         "strings nested in dictionaries/arrays, streams with no/ASCIIHex/ASCII85/Flate filters, generations > 0) read through Storage + Resolve; "
+        "crypt_open_file (no model): such files (R2, R3, V4 RC4 / AESV2, R5, R6, /StmF != /StrF; /Encrypt indirect) opened through the public "
+        "FileOptions::cached()/uncached()[.password(pw)].load with the user, the owner, two wrong and no password: accepted -> page count, "
+        "typed /Info /Title and all leaves are the plaintext, otherwise -> error kind InvalidPassword; "
         "rc4: keys of 0..257 bytes.  non-trivial = at least 2 bytes of input; distinct by full case line")
 CASE_TIMEOUT = 30.0
 MODEL_TIMEOUT = 240.0
@@ -441,7 +444,7 @@ def make_stream(rng, data, filt):
     return W.Stream(d, data)
 
 
-def doc_case(rng, h, fmt="table", enc_indirect=True, with_meta=True, objstm=False, pw=None, who="user", tags=(), wrong=False):
+def doc_case(rng, h, fmt="table", enc_indirect=True, with_meta=True, objstm=False, pw=None, who="user", tags=(), wrong=False, bundle=False):
     objs = W.minimal_catalog()
     gens = {}
     info_num = 4
@@ -510,6 +513,9 @@ def doc_case(rng, h, fmt="table", enc_indirect=True, with_meta=True, objstm=Fals
         else:
             leaves_plain(objs[n], expect_leaves)
             leaves_model(b"S", n, gens.get(n, 0), enc_objs[n], mleaves)
+    if bundle:
+        # the written document and what it contains (for the cases that open it through FileOptions: file_open_cases)
+        return dict(data=data, ids=ids, leaves=expect_leaves, title=info["Title"], enc_indirect=enc_indirect, objstm=objstm, fmt=fmt)
     # probes: Resolve::stream_data over the bytes of one encrypted stream, under its own and under foreign ids
     probes = []
     for n in ids:
@@ -616,6 +622,79 @@ def doc_cases(rng, tier):
     return out
 
 
+def pw_accepted(h, pw):
+    """does the standard accept `pw` as the user or the owner password of the document written with h
+    (Algorithm 2 step a: the first 32 bytes, padded; Algorithm 2.A: the SASLprep form, first 127 bytes)"""
+    if h.R >= 5:
+        a = S.prep_r56(pw)
+        return a is not None and a in (S.prep_r56(h.upw), S.prep_r56(h.opw))
+    return S.pad_pw(pw) in (S.pad_pw(h.upw), S.pad_pw(h.opw or h.upw))
+
+
+FILE_OPEN_VARIANTS = [(2, "V2", 5, 1, None), (3, "V2", 16, 2, None), (3, "V2", 7, 2, None), (4, "V2", 16, 4, "bytes"), (4, "AESV2", 16, 4, "bytes"),
+                      (5, "AESV3", 32, 5, "bytes"), (4, "AESV2", 16, 4, "bytes", "V2", False), (4, "V2", 16, 4, "bytes", "Identity", False),
+                      (5, "AESV3", 32, 5, "bytes", "Identity", False)]
+
+
+def file_open_cases_for(rng, h, tags=(), **kw):
+    """one written document opened the way a user opens it — FileOptions::cached() / ::uncached() [.password(pw)] .load(bytes)
+    (mode crypt_open_file; no Coq runner: judged from the specification side only).  The user and the owner password open it and
+    the page count, the typed /Info /Title and every string and stream read through File::resolver() are the plaintext; a wrong
+    password, and no password when the user password is not empty, is an invalid-password error (C06: "and only then")."""
+    b = doc_case(rng, h, bundle=True, **kw)
+    ids = ",".join(str(n) for n in b["ids"]).encode()
+    full = [b"1", b"T+" + b["title"]] + b["leaves"]
+
+    def opens(r):
+        if r[0] != "OK":
+            return "a correct password must open the document through FileOptions::load: %s %s" % (r[0], r[1])
+        if len(r[1]) != len(full):
+            return "expected %d fields, got %d" % (len(full), len(r[1]))
+        for i, (g, e) in enumerate(zip(r[1], full)):
+            if g != e:
+                return "field %d (0 = page count, 1 = /Info /Title, then leaves): expected %s, read %s" % (i, e[:40].hex(), g[:40].hex())
+        return None
+
+    def rejected(r):
+        if r[0] == "ERR" and r[1].strip() == "InvalidPassword":
+            return None
+        return "a password that is neither the user nor the owner password must be rejected by FileOptions::load with an invalid-password error, got %s %s" % (r[0], r[1][:80] if r[0] != "OK" else "(the document opened)")
+
+    tg = ["file-open", "R%d" % h.R, h.method, b["fmt"], "enc-indirect" if b["enc_indirect"] else "enc-direct"] + list(tags)
+    if h.str_method != h.method:
+        tg.append("strf-differs")
+    if b["objstm"]:
+        tg.append("objstm")
+    flip = rng.random() < 0.5
+    tries = [("user", h.upw, flip), ("owner", h.opw or h.upw, not flip), ("wrong", wrong_password(rng, h), True),
+             ("wrong", wrong_password(rng, h), False), ("none", None, rng.random() < 0.5)]
+    out = []
+    for who, pw, cached in tries:
+        good = pw_accepted(h, b"" if pw is None else pw)
+        out.append(Case("crypt_open_file", [b"c" if cached else b"u", opt(pw), ids, b["data"]], check=opens if good else rejected, model=False,
+                        tags=tg + [who, "cached" if cached else "uncached", "accepted" if good else "rejected"]))
+    return out
+
+
+def file_open_cases(rng, tier):
+    out = []
+    reps = 1 if tier == "quick" else 12
+    for rep in range(reps):
+        for k, var in enumerate(FILE_OPEN_VARIANTS):
+            pool = PW_UTF8 if var[0] >= 5 else PW_BYTES
+            # an empty user password (the document opens without .password()) for every third variant, else a non-empty one
+            upw = b"" if (k + rep) % 3 == 0 else rng.choice([p for p in pool if p])
+            h = make_handler(rng, var, upw=upw)
+            fmt = rng.choice(["table", "stream"])
+            # /Encrypt is always an indirect object here: a trailer whose /Encrypt is a direct dictionary (allowed by ISO 32000-1
+            # Table 15, accepted by Storage::load_storage_and_trailer_password and read correctly by crypt_doc) is refused by
+            # File::load_data with the right password (Trailer.encrypt_dict is an RcRef: "expected Reference, found Dictionary"
+            # under the strict options FileOptions uses) — a defect of the library outside this strengthening, reported, not generated
+            out += file_open_cases_for(rng, h, fmt=fmt, objstm=fmt == "stream" and rng.random() < 0.6, with_meta=rng.random() < 0.7,
+                                       enc_indirect=True)
+    return out
+
+
 def strf_cases(rng):
     """the documents of finding C06-b (fixed): /StrF /Identity with an RC4 /StmF, and the reverse"""
     out = []
@@ -655,6 +734,8 @@ def generate(rng, tier):
                 c = doc_case(rng, h, fmt="stream", objstm=True, tags=["R6"])
                 if c is not None:
                     yield c
+                for c in file_open_cases_for(rng, h, tags=["R6"], fmt=rng.choice(["table", "stream"])):
+                    yield c
     for c in malformed_open_cases(rng):
         yield c
     for c in dec_cases(rng, tier):
@@ -662,6 +743,8 @@ def generate(rng, tier):
     for c in doc_cases(rng, tier):
         yield c
     for c in strf_cases(rng):
+        yield c
+    for c in file_open_cases(rng, tier):
         yield c
 
 
